@@ -251,3 +251,6 @@ def run(ck):
     c16.r4(ck_alias(ck, "C01-R7"))
     # an exact diff applies without offset only if offsets are kept right from hunk to hunk (C02-R6)
     c02.r6_offset_bookkeeping(ck, rule="C01-R8")
+    # quoted names are one of the accepted header dialects: what git writes for a non-ASCII name is read back as that name (C12-R9)
+    from . import c12
+    c12.r9_quoted_form_is_read_back(ck_alias(ck, "C01-R9"))
